@@ -10,7 +10,11 @@ p,f,r=sys.argv[1:4]
 s=open(p).read()
 n=len(re.findall(f,s))
 if n==0: print("MUTATION DID NOT MATCH"); sys.exit(3)
-s2=re.sub(f,r,s,count=1)
+import os
+nth=int(os.environ.get('MUT_NTH','0'))
+ms=list(re.finditer(f,s))
+m=ms[nth]
+s2=s[:m.start()]+m.expand(r)+s[m.end():]
 open(p,'w').write(s2)
 print("mutated (%d candidates, first replaced)"%n)
 PY
